@@ -113,6 +113,91 @@ func checkC04(ctx *Ctx) {
 		c04RandomLane(ctx, "random-"+pol, ctx.N(60, 800), gens, weights, mk, pi%2 == 1)
 	}
 	c04SamplerLane(ctx)
+	c04SamplerRaceLane(ctx)
+}
+
+// c04SamplerRaceLane: many keys whose deadline has passed, the real sampler running with a sample as large
+// as the index, and writers that re-create the expired keys (plain SET: the new value has no deadline) as
+// soon as the first eviction event is observed. Every key a writer re-created and was acknowledged for has
+// no deadline, so expiry must never remove it: at the end all of them must hold the value written.
+func c04SamplerRaceLane(ctx *Ctx) {
+	rounds := ctx.N(4, 20)
+	for rd := 0; rd < rounds; rd++ {
+		nkeys := 1500
+		started := make(chan struct{})
+		var once sync.Once
+		var events int64
+		var mu sync.Mutex
+		setHook(func(name string, args ...interface{}) {
+			if name == "evict.ttl" {
+				mu.Lock()
+				events++
+				mu.Unlock()
+				once.Do(func() { close(started) })
+			}
+		})
+		in, err := NewInst(InstOpts{Policy: "allkeys-lru", EvictionSample: uint(nkeys), EvictionInterval: 20 * time.Millisecond})
+		if err != nil {
+			setHook(nil)
+			ctx.Broken(err.Error())
+			return
+		}
+		for i := 0; i < nkeys; i++ {
+			in.Do("SET", fmt.Sprintf("k%04d", i), "old", "PX", "10")
+		}
+		in.Clk.Advance(1e9) // every key is now expired but still in the store
+		select {
+		case <-started:
+		case <-time.After(10 * time.Second):
+			setHook(nil)
+			in.Close()
+			ctx.Inconclusive("sampler race lane: no eviction event within the watchdog")
+			continue
+		}
+		var wg sync.WaitGroup
+		acked := make([]bool, nkeys)
+		for w := 0; w < 8; w++ {
+			wg.Add(1)
+			go func(w int) {
+				defer wg.Done()
+				for i := w; i < nkeys; i += 8 {
+					if v, _, crash := in.Do("SET", fmt.Sprintf("k%04d", i), "new"); crash == "" && !v.IsError() {
+						acked[i] = true
+					}
+				}
+			}(w)
+		}
+		wg.Wait()
+		time.Sleep(60 * time.Millisecond) // a few more sampler rounds
+		setHook(nil)
+		lost := 0
+		first := ""
+		for i := 0; i < nkeys; i++ {
+			if !acked[i] {
+				continue
+			}
+			v, _, _ := in.Do("GET", fmt.Sprintf("k%04d", i))
+			if t, _ := v.Text(); v.IsNull() || t != "new" {
+				lost++
+				if first == "" {
+					first = fmt.Sprintf("k%04d reads %s", i, v.String())
+				}
+			}
+		}
+		in.Close()
+		ctx.Eval(1)
+		mu.Lock()
+		ev := events
+		mu.Unlock()
+		ctx.Count("sampler_race_eviction_events", ev)
+		ctx.Class(fmt.Sprintf("sampler-race|events>%d", ev/500*500))
+		if lost > 0 {
+			ctx.Violate(Violation{Kind: "sampler", Lane: "sampler-race",
+				What: fmt.Sprintf("%d of %d keys that were re-created without a deadline (acknowledged SET) while the expiry sampler was running were removed by expiry; first: %s", lost, nkeys, first),
+				Case: map[string]interface{}{"keys": nkeys, "writers": 8, "round": rd}, Key: "c04|sampler-race"})
+			return
+		}
+	}
 }
 
 func c04RandomLane(ctx *Ctx, lane string, nprog int, gens []cmdGen, weights []int, mk func() *Inst, ticks bool) {
